@@ -533,11 +533,22 @@ def solver_postconditions(ctx, rule):
                                                                                _dominates_nested(stmt, bb[1]) for bb in builds):
             it = ffs.resolved.get(id(stmt))
             it_s = strip_refs(it)
-            if isinstance(it_s, ast.Call) and isinstance(it_s.func, ast.Name) and it_s.func.id == 'range' and \
-                    len(it_s.args) == 1:
-                a0 = strip_refs(it_s.args[0])
-                if isinstance(a0, ast.Call) and isinstance(a0.func, ast.Name) and a0.func.id == 'len' and \
-                        a0.args[0] is full_matrix:
+
+            def over_all_rows(e):
+                # range(len(a)) / a itself / zip(a, b) / enumerate(..) - every row of the full matrix is visited
+                e = strip_refs(e)
+                if e is full_matrix or strip_refs(e) is strip_refs(full_matrix):
+                    return True
+                if isinstance(e, ast.Call) and isinstance(e.func, ast.Name):
+                    if e.func.id == 'range' and len(e.args) == 1:
+                        a0 = strip_refs(e.args[0])
+                        return isinstance(a0, ast.Call) and isinstance(a0.func, ast.Name) and a0.func.id == 'len' and \
+                            (a0.args[0] is full_matrix or strip_refs(a0.args[0]) is strip_refs(full_matrix))
+                    if e.func.id in ('zip', 'enumerate'):
+                        return any(over_all_rows(a) for a in e.args)
+                return False
+            if over_all_rows(it_s):
+                if True:
                     raises = [r for r in ast.walk(stmt) if isinstance(r, ast.Raise)]
                     tests = [n for n in ast.walk(stmt) if isinstance(n, ast.If)]
                     if raises and tests and all(('ValueError' in unparse(r)) for r in raises):
@@ -583,6 +594,19 @@ def strip_clamp(v):
                 return v
             v = rest[0]
             continue
+        # the same clamp written as a statement (`if x < 0: x = 0`) or a conditional expression
+        alts = None
+        if isinstance(c, Phi) and len(c.options) == 2:
+            alts = list(c.options)
+        elif isinstance(c, ast.IfExp):
+            alts = [c.body, c.orelse]
+        if alts is not None:
+            consts = [a for a in alts if const_value(strip_refs(a)) in (0, 1) and
+                      not isinstance(const_value(strip_refs(a)), bool)]
+            rest = [a for a in alts if a not in consts]
+            if len(consts) == 1 and len(rest) == 1:
+                v = rest[0]
+                continue
         return v
 
 
